@@ -485,7 +485,14 @@ func genC15Key(rng *rand.Rand, depth int, all []*c15Msg) *c15Key {
 
 func runC15(r *ev.Run) {
 	r.SetRule("mailboxes of 0-14 generated messages whose flags, size, internal date, Date header, address/subject/X-Tag headers (present, absent, empty, folded) and body words are known by construction; the session's view (sequence numbers, UIDs, flags incl. \\Recent, RFC822.SIZE, INTERNALDATE) is read with FETCH, also after another session changed flags, expunged or appended and the observer was told (NOOP), and while a message that another session expunged or the connector deleted is still in the observer's view because it has not been told. Random key expressions (all RFC 3501 keys; NOT/OR/parenthesised lists to depth 3; 1-3 juxtaposed keys; optional CHARSET; strings outside ASCII sent as literals in UTF-8 and ISO-8859-1) are evaluated by the harness over that view and compared with SEARCH (exact ascending list, no duplicates) and UID SEARCH (the UIDs of the same messages); metamorphic relations NOT k = ALL minus k, OR a b = a union b, (a b) = a intersect b are checked on the server's own answers. distinct = distinct expression shapes x result-size classes")
-	r.Assume("internal dates are given in several zones; BEFORE/ON/SINCE are evaluated on the calendar day of INTERNALDATE as the server reports it in FETCH, SENT* keys on the date of the Date header as written; the X-Pm-Gluon-Id line the server adds is never searched for")
+	r.Assume("the process-wide local time zone of the server is set to a non-UTC offset chosen by the seed; internal dates are given in several zones; BEFORE/ON/SINCE are evaluated on the calendar day of INTERNALDATE as the server reports it in FETCH, SENT* keys on the date of the Date header as written; the X-Pm-Gluon-Id line the server adds is never searched for")
+
+	// The server runs in this process: give the process a local time zone other than UTC (what a desktop has).
+	// Nothing a client sees may depend on it. Set once, before any server or goroutine of this check starts.
+	zones := []int{2 * 3600, -5 * 3600, 13 * 3600, -11 * 3600, 5*3600 + 1800}
+	off := zones[r.Rand("process-zone").Intn(len(zones))]
+	time.Local = time.FixedZone(fmt.Sprintf("verif%+d", off/60), off)
+	r.Set("process_local_zone_offset_seconds", off)
 
 	boxes := r.Pick(120, 1500)
 
